@@ -10,6 +10,7 @@ from typing import TYPE_CHECKING
 
 from stabilize.queue.messages import (
     CancelWorkflow,
+    CompleteWorkflow,
     RestartStage,
     ResumeStage,
     StartWorkflow,
@@ -201,6 +202,20 @@ class Orchestrator:
                         stage_id=stage.id,
                     )
                 )
+
+        # Nothing is parked: the pause arrived when no task was left to park
+        # (typically while the last stage was finishing), so no ResumeStage
+        # will ever flip the workflow back to RUNNING. Resume the workflow
+        # itself and let CompleteWorkflow, which stands aside while the
+        # workflow is PAUSED, look at it again.
+        if self.store and not messages and execution.status.name == "PAUSED":
+            self.store.resume(execution.id)
+            messages.append(
+                CompleteWorkflow(
+                    execution_type=execution.type.value,
+                    execution_id=execution.id,
+                )
+            )
 
         # Push all messages atomically if store available
         if self.store and messages:
